@@ -20,11 +20,27 @@ template<class To, class From>
 void ctor_check(Cell&, From, const std::array<typename To::scalar, To::width>&, uint32_t, const std::string&, std::false_type) {}
 
 // bit_cast between types of identical representation preserves all bytes
+// two casts of the same memory-resident object with an assignment in between: the second cast must see the new value
+template<class To, class From>
+__attribute__((noinline)) void bitcast_flow(From& v, const From& b, To* out) {
+    out[0] = avel::bit_cast<To>(v);
+    v = b;
+    out[1] = avel::bit_cast<To>(v);
+}
 template<class To, class From>
 void bitcast_check(Cell& c, From f, uint32_t cls, const std::string& in, std::true_type) {
     To t = avel::bit_cast<To>(f);
     c.lanes++;
     if (std::memcmp(&t, &f, sizeof(To)) != 0) viol("value", cls, -1, in + ",form=bit_cast", "bytes differ", "bytes equal");
+    static From obj;
+    unsigned char by[sizeof(From)]; std::memcpy(by, &f, sizeof by); for (size_t i = 0; i < sizeof by; ++i) by[i] ^= 0xFF;
+    From nb; std::memcpy(&nb, by, sizeof by);
+    obj = f;
+    To out[2];
+    bitcast_flow<To, From>(obj, nb, out);
+    c.lanes += 2;
+    if (std::memcmp(&out[0], &f, sizeof(To)) != 0) viol("value", cls, -1, in + ",form=bit_cast(first of two)", "bytes differ", "bytes equal");
+    if (std::memcmp(&out[1], &nb, sizeof(To)) != 0) viol("value", cls, -1, in + ",form=bit_cast(v); v = w; bit_cast(v)", "second cast returned stale bytes", "bytes of w");
 }
 template<class To, class From> void bitcast_check(Cell&, From, uint32_t, const std::string&, std::false_type) {}
 
